@@ -17,6 +17,7 @@ class LoopSpec(object):
     def __init__(self, ordinal):
         self.ordinal = ordinal
         self.invariants = []     # [(label, expr_ir)]
+        self.steps = []          # [(label, expr_ir, text)] two-state clauses checked at the end of one iteration
         self.unroll = None       # int: concrete unrolling allowed up to this many iterations
         self.modifies_extra = [] # extra havoc targets (expression strings)
         self.decreases = None
@@ -119,6 +120,11 @@ class Contract(object):
 class LoopSpecBuilder(LoopSpec):
     def invariant(self, expr, label=None):
         self.invariants.append((label or 'inv#%d' % (len(self.invariants) + 1), parse_expr(expr), expr))
+        return self
+
+    def step(self, expr, label=None):
+        """clause over head(...) (state at the head of an arbitrary iteration) and the state at the end of the body"""
+        self.steps.append((label or 'step#%d' % (len(self.steps) + 1), parse_expr(expr), expr))
         return self
 
     def unroll_up_to(self, n):
